@@ -222,7 +222,7 @@ class Violin(object):
         # Compute kde
         for cn, se in data.items():
             notnull = se.notnull() & np.isfinite(se.values)
-            if notnull.sum() <= 2:
+            if notnull.sum() <= 2 or se[notnull].min() == se[notnull].max():
                 kde_x.loc[:, cn] = np.nan
                 kde_y.loc[:, cn] = np.nan
                 continue
